@@ -6,5 +6,6 @@ CONSTANTS
  MaxAccept = 1
  FixNewSink = TRUE
  FixCloseOrder = TRUE
+ FixCloseLock = TRUE
 INVARIANT Safe
 CHECK_DEADLOCK FALSE
